@@ -1940,7 +1940,11 @@ def c19(tier):
     res = run.model("Cli", "Cli.cfg")
     scens = common.tla_json_strings(res["lines"], "REPLAY")
     reps = 1 if tier == "quick" else 8
-    texts = [t for t in gen.mixed_corpus(r, 60) if t.strip() and not t.startswith("-") and "\\n" not in t and "\x00" not in t
+    # (the binary is built without the hooks, the reference conversion with them: a large and varied pool of inputs
+    # also shows that the feature does not change what the library computes)
+    pool = gen.mixed_corpus(r, 60 if tier == "quick" else 400)
+    pool += [gen.comb_grid(r) for _ in range(40)] + [gen.walk_grid(r) for _ in range(40)] + [gen.nested_grid(r, "-|+ab") for _ in range(20)]
+    texts = [t for t in pool if t.strip() and not t.startswith("-") and "\\n" not in t and "\x00" not in t
              and not t.lstrip().startswith("-")]
     texts += ["+--+\n|ab|\n+--+", "o-->*", gen.box(5, 1, "round", "{a}") + "\n# Legend:\na = {fill:red}"]
     convert, convert_many = lib_converter()
